@@ -78,7 +78,8 @@ Proof. destruct p as [a b]. cbn. rewrite !Z.eqb_refl. reflexivity. Qed.
 Lemma alloc_loop_spec strict k fuel : forall s start src size,
   let '(s', r) := alloc_loop strict k fuel s start src size in
   o_mem s' = o_mem s /\ incl (o_dirty s') (o_dirty s) /\
-  (exists t, o_trace s' = o_trace s ++ t /\ Forall alloc_event t) /\
+  (exists t, o_trace s' = o_trace s ++ t /\ Forall alloc_event t /\
+             match r with AFound a => exists h, In (EMmap h size (Some a)) t | _ => True end) /\
   match r with
   | AFound a => in_reach strict a src /\ o_owned s' = (a,size) :: o_owned s
                 /\ (forall p, In p (pages a (Z.max size 1)) -> In p (o_wr s'))
@@ -93,20 +94,21 @@ Proof.
     unfold do_mmap. destruct (k_mmap k (o_calls s) start size) as [a|] eqn:K.
     + destruct (if strict then Z.abs (a - src) <? RANGE else Z.abs (a - src) <=? RANGE) eqn:C.
       * cbn [o_mem o_dirty o_trace o_owned o_wr]. repeat split; auto using incl_refl.
-        -- exists [EMmap start size (Some a)]. split; auto. repeat constructor.
+        -- exists [EMmap start size (Some a)]. split; auto. split; [repeat constructor|]. exists start. left. reflexivity.
         -- unfold in_reach. destruct strict; [apply Z.ltb_lt|apply Z.leb_le]; auto.
         -- intros p Hp. apply in_or_app. auto.
       * match goal with |- context[alloc_loop strict k fuel ?s1 ?st src size] => specialize (IH s1 st src size) end.
-        destruct (alloc_loop _ _ _ _ _ _ _) as [s' r]. destruct IH as (M & D & (t & T & Ft) & R).
+        destruct (alloc_loop _ _ _ _ _ _ _) as [s' r]. destruct IH as (M & D & (t & T & Ft & It) & R).
         cbn [do_munmap o_mem o_dirty o_trace o_owned] in *. repeat split; auto.
         -- intros x Hx. apply D in Hx. apply filter_In in Hx. tauto.
         -- exists ([EMmap start size (Some a); EMunmap a size] ++ t). rewrite T, <- !app_assoc. split; auto.
-           repeat constructor; auto.
+           split; [repeat constructor; auto|]. destruct r; auto. destruct It as (h & Hh). exists h. apply in_or_app. auto.
         -- rewrite remove1_head in R. exact R.
     + match goal with |- context[alloc_loop strict k fuel ?s1 ?st src size] => specialize (IH s1 st src size) end.
-      destruct (alloc_loop _ _ _ _ _ _ _) as [s' r]. destruct IH as (M & D & (t & T & Ft) & R).
+      destruct (alloc_loop _ _ _ _ _ _ _) as [s' r]. destruct IH as (M & D & (t & T & Ft & It) & R).
       cbn [o_mem o_dirty o_trace o_owned] in *. repeat split; auto.
-      exists ([EMmap start size None] ++ t). rewrite T, <- !app_assoc. split; auto. repeat constructor; auto.
+      exists ([EMmap start size None] ++ t). rewrite T, <- !app_assoc. split; auto.
+      split; [repeat constructor; auto|]. destruct r; auto. destruct It as (h & Hh). exists h. apply in_or_app. auto.
 Qed.
 
 (* the fuel is enough: never exhausted for a user-space source address *)
@@ -130,7 +132,7 @@ Proof. intros H. unfold ALLOC_FUEL.
 Theorem alloc_jit_ok strict k s src size s' a : alloc_jit strict k s src size = (s', ROk a) ->
   in_reach strict a src /\ o_owned s' = (a,size) :: o_owned s /\ o_mem s' = o_mem s /\ incl (o_dirty s') (o_dirty s)
   /\ (forall p, In p (pages a (Z.max size 1)) -> In p (o_wr s'))
-  /\ (exists t, o_trace s' = o_trace s ++ t /\ Forall alloc_event t).
+  /\ (exists t, o_trace s' = o_trace s ++ t /\ Forall alloc_event t /\ exists h, In (EMmap h size (Some a)) t).
 Proof. unfold alloc_jit. pose proof (alloc_loop_spec strict k ALLOC_FUEL s (Z.max 0 (src - RANGE)) src size) as H.
   destruct (alloc_loop _ _ _ _ _ _ _) as [s1 [b| |]]; intros E; try discriminate. injection E as <- <-.
   destruct H as (M & D & T & R & O & P). auto 10. Qed.
@@ -140,7 +142,7 @@ Theorem alloc_jit_panic strict k s src size s' p : 0 <= src -> alloc_jit strict 
 Proof. intros Hs. unfold alloc_jit. pose proof (alloc_loop_spec strict k ALLOC_FUEL s (Z.max 0 (src - RANGE)) src size) as H.
   pose proof (alloc_jit_fuel strict k s src size Hs) as F.
   destruct (alloc_loop _ _ _ _ _ _ _) as [s1 [b| |]]; intros E; try discriminate; injection E as <- <-.
-  - destruct H as (M & D & T & O). auto 10.
+  - destruct H as (M & D & (t & T & Ft & _) & O). eauto 10.
   - exfalso. apply F. reflexivity. Qed.
 Lemma alloc_jit_nofault strict k s src size : snd (alloc_jit strict k s src size) <> RFault.
 Proof. unfold alloc_jit. destruct (alloc_loop _ _ _ _ _ _ _) as [s1 [b| |]]; cbn; discriminate. Qed.
@@ -150,7 +152,7 @@ Record alloc_wf (al:allocator) : Prop := {
   awf_ok : forall k s src size s' a, al k s src size = (s', ROk a) ->
      o_owned s' = (a,size) :: o_owned s /\ o_mem s' = o_mem s /\ incl (o_dirty s') (o_dirty s)
      /\ (forall p, In p (pages a (Z.max size 1)) -> In p (o_wr s'))
-     /\ (exists t, o_trace s' = o_trace s ++ t /\ Forall alloc_event t);
+     /\ (exists t, o_trace s' = o_trace s ++ t /\ Forall alloc_event t /\ exists h, In (EMmap h size (Some a)) t);
   awf_panic : forall k s src size s' p, 0 <= src -> al k s src size = (s', RPanic p) ->
      p = PNoMemory /\ o_owned s' = o_owned s /\ o_mem s' = o_mem s /\ incl (o_dirty s') (o_dirty s)
      /\ (exists t, o_trace s' = o_trace s ++ t /\ Forall alloc_event t);
@@ -166,7 +168,7 @@ Proof. constructor; unfold alloc_given, do_mmap.
   - intros k s src size s' a. destruct (k_mmap _ _ _ _) as [b|]; intros H; [|discriminate]. injection H as <- <-.
     cbn. repeat split; auto using incl_refl.
     + intros p Hp. apply in_or_app; auto.
-    + eexists. split; [reflexivity|]. repeat constructor.
+    + eexists. split; [reflexivity|]. split; [repeat constructor|]. eexists. left. reflexivity.
   - intros k s src size s' p _. destruct (k_mmap _ _ _ _) as [b|]; intros H; [discriminate|]. injection H as <- <-.
     cbn. repeat split; auto using incl_refl. eexists. split; [reflexivity|]. repeat constructor.
   - intros k s src size. destruct (k_mmap _ _ _ _); cbn; discriminate. Qed.
